@@ -402,6 +402,8 @@ func runC15(c *eng.Ctx) {
 			"a snapshot lookup goes on to the next selected file unless it fails: a file that spans the key without holding it does not end the lookup")
 	})
 
+	c.Rule("GUARD", "pkg/encoding.FixedOffsetDecoder.GetBlock{empty range accepted}", func() { emptyBlockAccepted(c) })
+
 	// ---- 7. merged iterator ------------------------------------------------------------------------------------------------------------------
 	c.Rule("PASS", "kv/table.mergedIterator.HasNext{heap re-established}", func() {
 		f := c.Fn("kv/table.mergedIterator.HasNext")
